@@ -54,6 +54,12 @@ CHECKS = {
  "C16": ("stateful property-based testing (proptest): two-contract mirror equality (cw20 balances vs reward-contract holder balances) after every step of generated bSei operation sequences",
          "Exploration: after every step of generated histories rich in bSei transfers, sends, allowance operations, allowance burns and hub-mediated burns, the reward contract's recorded balance of every address either contract enumerates must equal its bSei balance and the totals must agree.",
          "DESIGN.md 5 C16"),
+ "C12": ("property-based testing (proptest) of the two pure distribution functions over generated raw inputs: postcondition predicates (conservation, caps, floors) and a 5 s termination watchdog",
+         "Exploration: millions of generated (validator list, amount) inputs - zeros, ties, near-even, tiny, up to 2^100, sorted either way or unsorted, lists up to 60 - are fed to calculate_delegations / calculate_undelegations; the plan must distribute / remove exactly the amount, respect the even-share cap and floor, fail exactly for an empty list or an amount above the total, and return.",
+         "DESIGN.md 5 C12"),
+ "C18": ("model-based property testing (proptest): reference cw20 ledger (balances, supply, allowances with expiry) against both token contracts over generated instantiate messages and operation sequences",
+         "Exploration: generated instantiate messages (repeated addresses, zero amounts, invalid metadata) and sequences of all cw20 operations by arbitrary principals with amounts around balances / allowances and expirations crossed by clock moves; whatever the reference ledger forbids must be rejected, an accepted operation must have exactly the ledger's effect, the enumerated balances must sum to the total supply in every state, the minter must stay the hub and every stSei burn / bSei allowance burn must carry a hub CheckSlashing.",
+         "DESIGN.md 5 C18"),
 }
 
 PENDING = {}
